@@ -28,6 +28,7 @@ ObsMatches(exp, obs) ==
           /\ obs.q.kind = "ok" =>
                 /\ obs.q.args = exp.q.args
                 /\ obs.q.rhs = exp.q.rhs
+                /\ obs.q.stoich = exp.q.stoich
                 /\ obs.q.init = exp.q.init
                 /\ obs.q.parvals = exp.q.parvals
                 /\ ToSet(obs.q.static) = exp.q.static
